@@ -30,6 +30,7 @@ type event struct {
 	uri  string // r.RequestURI when it disagrees with r.URL.RequestURI(), else ""
 	err  string // "n" or the status of the error in the request context ("0": not a HandlerError)
 	repl string // "n" or the value of the {http.error.status_code} placeholder
+	hint bool   // not a probe event: an interim WriteHeader(103) (static_response Early Hints)
 }
 
 type recorder struct{ events []event }
@@ -75,7 +76,7 @@ func (p *Probe) ServeHTTP(w http.ResponseWriter, r *http.Request, next caddyhttp
 				rs = fmt.Sprint(v)
 			}
 		}
-		rec.events = append(rec.events, event{p.ID, r.URL.Path, uri, e, rs})
+		rec.events = append(rec.events, event{id: p.ID, path: r.URL.Path, uri: uri, err: e, repl: rs})
 	}
 	switch p.Kind {
 	case "pass":
@@ -448,11 +449,19 @@ type respWriter struct {
 	h      http.Header
 	codes  []int
 	writes int
+	rec    *recorder
 }
 
 func (w *respWriter) Header() http.Header         { return w.h }
 func (w *respWriter) Write(b []byte) (int, error) { w.writes++; return len(b), nil }
-func (w *respWriter) WriteHeader(code int)        { w.codes = append(w.codes, code) }
+func (w *respWriter) WriteHeader(code int) {
+	if code == http.StatusEarlyHints {
+		// an interim header; what follows is still the same response: kept in the event order
+		w.rec.events = append(w.rec.events, event{hint: true})
+		return
+	}
+	w.codes = append(w.codes, code)
+}
 
 type observed struct {
 	events   []event
@@ -513,7 +522,7 @@ func serveSeq(rs []*route, hasErrs bool, errs []*route, qs []request, named []*r
 		}
 		rec := &recorder{}
 		req = req.WithContext(context.WithValue(req.Context(), traceKey{}, rec))
-		w := &respWriter{h: http.Header{}}
+		w := &respWriter{h: http.Header{}, rec: rec}
 		srv.ServeHTTP(w, req)
 		obs = append(obs, observed{events: rec.events, codes: w.codes, writes: w.writes})
 	}
@@ -536,6 +545,10 @@ func canon(o observed) string {
 	}
 	var t []string
 	for _, e := range o.events {
+		if e.hint {
+			t = append(t, "H")
+			continue
+		}
 		es := e.err
 		if e.repl != e.err {
 			es += "/" + e.repl
